@@ -808,6 +808,7 @@ package larking
 //@ func (*Mux).DropConn serves C11 C12 partial ghost count post
 //@   returns (ok)
 //@   requires m != nil
+//@   assert atcall `s.removeHandler(` [writer-mutates-its-own-copy C12] s != nil && isfresh(s)
 //@   count locks `m.mu.Lock(`
 //@   count unlocks `m.mu.Unlock(`
 //@   assert atcall `m.loadState(` [snapshot-cloned-under-lock C12] locks == 1 && unlocks == 0
@@ -820,6 +821,7 @@ package larking
 //@ func (*Mux).registerService serves C12 C16 partial ghost count post
 //@   returns (err)
 //@   requires m != nil
+//@   assert atcall `s.appendHandler(` [writer-mutates-its-own-copy C12] s != nil && isfresh(s)
 //@   count locks `m.mu.Lock(`
 //@   count unlocks `m.mu.Unlock(`
 //@   assert atcall `m.loadState(` [snapshot-cloned-under-lock C12] locks == 1 && unlocks == 0
@@ -830,6 +832,7 @@ package larking
 //@ func (*Mux).RegisterConn serves C11 C12 partial ghost count post
 //@   returns (err)
 //@   requires m != nil
+//@   assert atcall `s.addConnHandler(` [writer-mutates-its-own-copy C12] s != nil && isfresh(s)
 //@   count locks `m.mu.Lock(`
 //@   count unlocks `m.mu.Unlock(`
 //@   assert atcall `m.loadState(` [snapshot-cloned-under-lock C12] locks == 1 && unlocks == 0
@@ -1076,3 +1079,8 @@ package larking
 //@   requires stream != nil && msg != nil
 //@   assume at "for _, fd := range s.method.body {" s != nil && s.method != nil && AllSingular(s.method.body) && cur != nil
 //@   loop 1 invariant -1 <= rangeindex && rangeindex < len(s.method.body) && AllSingular(s.method.body) && cur != nil
+
+// A method value is written only while addRule builds it (checked by a scan of
+// every store in the package): the selectors proved walkable at registration are
+// the ones every later request uses.
+//@ immutable F$method. except (*path).addRule
